@@ -131,6 +131,11 @@ type Explorer struct {
 	prefix     []int
 	pos        int
 	pc         []*smt.Term
+	pcSet      map[int]bool
+	pcVars     []*smt.Term
+	varSeen    map[int]bool
+	models     []*cachedModel
+	CacheHits  int
 	taken      []int
 	freshN     int
 	reached    []string
@@ -158,7 +163,7 @@ func NewExplorer(sh *Shared, solverKind string, timeout time.Duration, harness s
 	if err != nil {
 		return nil, err
 	}
-	e := &Explorer{Ctx: ctx, Solver: sol, Sh: sh, Harness: harness, MaxSteps: 4000000, AllocLimit: 1 << 20, ForkLimit: 64, Funcs: map[string]bool{}}
+	e := &Explorer{Ctx: ctx, Solver: sol, Sh: sh, Harness: harness, MaxSteps: 4000000, AllocLimit: 1 << 20, ForkLimit: 256, Funcs: map[string]bool{}}
 	ctx.Owner = e
 	return e, nil
 }
@@ -169,6 +174,12 @@ func (e *Explorer) startPath(prefix []int) {
 	e.prefix = prefix
 	e.pos = 0
 	e.pc = e.pc[:0]
+	e.pcSet = map[int]bool{}
+	e.pcVars = e.pcVars[:0]
+	e.varSeen = map[int]bool{}
+	for _, m := range e.models {
+		m.alive = true
+	}
 	e.taken = e.taken[:0]
 	e.freshN = 0
 	e.reached = nil
@@ -188,17 +199,80 @@ func (e *Explorer) startPath(prefix []int) {
 
 func (e *Explorer) replaying() bool { return e.pos < len(e.prefix) }
 
+// cachedModel is a total assignment (absent variables are 0) known to satisfy the current path condition.
+type cachedModel struct {
+	env   map[string]uint64
+	memo  map[int]uint64
+	alive bool
+}
+
+func (m *cachedModel) holds(t *smt.Term) bool { return smt.Eval(t, m.env, m.memo) != 0 }
+
+const maxCachedModels = 12
+
+func (e *Explorer) addModel(env map[string]uint64) {
+	m := &cachedModel{env: env, memo: map[int]uint64{}, alive: true}
+	if len(e.models) >= maxCachedModels {
+		// drop a dead one if possible, else the oldest
+		drop := 0
+		for i, x := range e.models {
+			if !x.alive {
+				drop = i
+				break
+			}
+		}
+		e.models = append(e.models[:drop], e.models[drop+1:]...)
+	}
+	e.models = append(e.models, m)
+}
+
 func (e *Explorer) feasible(extra *smt.Term) smt.Result {
 	if extra.IsFalse() {
 		return smt.Unsat
+	}
+	for i := len(e.models) - 1; i >= 0; i-- {
+		if m := e.models[i]; m.alive && m.holds(extra) {
+			e.CacheHits++
+			return smt.Sat
+		}
 	}
 	as := make([]*smt.Term, 0, len(e.pc)+1)
 	as = append(as, e.pc...)
 	if !extra.IsTrue() {
 		as = append(as, extra)
 	}
-	r, _ := e.Solver.Check(as, nil)
+	vars := e.pcVarList(extra)
+	r, m := e.Solver.Check(as, vars)
+	if r == smt.Sat {
+		env := map[string]uint64{}
+		for _, v := range vars {
+			env[v.Name] = m[v.Ref()]
+		}
+		e.addModel(env)
+	}
 	return r
+}
+
+// pcVarList returns the variables of the path condition plus extra.
+func (e *Explorer) pcVarList(extra *smt.Term) []*smt.Term {
+	e.collectVars(extra)
+	return e.pcVars
+}
+
+func (e *Explorer) collectVars(t *smt.Term) {
+	stack := []*smt.Term{t}
+	for len(stack) > 0 {
+		x := stack[len(stack)-1]
+		stack = stack[:len(stack)-1]
+		if e.varSeen[x.ID] {
+			continue
+		}
+		e.varSeen[x.ID] = true
+		if x.Op == smt.OpVar {
+			e.pcVars = append(e.pcVars, x)
+		}
+		stack = append(stack, x.Args...)
+	}
 }
 
 // Decide picks one of the alternatives. If exhaustive, the disjunction of conds is
@@ -245,9 +319,7 @@ func (e *Explorer) Decide(conds []*smt.Term, exhaustive bool) int {
 	}
 	e.pos++
 	e.taken = append(e.taken, choice)
-	if !conds[choice].IsTrue() {
-		e.pc = append(e.pc, conds[choice])
-	}
+	e.addPC(conds[choice])
 	return choice
 }
 
@@ -275,16 +347,34 @@ func (e *Explorer) Assume(c *smt.Term) {
 			panic(pathInfeasible{})
 		}
 	}
+	e.addPC(c)
+}
+
+// addPC appends a constraint to the path condition (deduplicated; conjunctions are flattened).
+func (e *Explorer) addPC(c *smt.Term) {
+	if c.IsTrue() || e.pcSet[c.ID] {
+		return
+	}
+	if c.Op == smt.OpBAnd {
+		for _, a := range c.Args {
+			e.addPC(a)
+		}
+		return
+	}
+	e.pcSet[c.ID] = true
 	e.pc = append(e.pc, c)
+	e.collectVars(c)
+	for _, m := range e.models {
+		if m.alive && !m.holds(c) {
+			m.alive = false
+		}
+	}
 }
 
 // AssumeNoCheck adds an axiom-like constraint without a feasibility query
 // (used by ideal-function models whose constraints are always satisfiable).
 func (e *Explorer) AssumeNoCheck(c *smt.Term) {
-	if c.IsTrue() {
-		return
-	}
-	e.pc = append(e.pc, c)
+	e.addPC(c)
 }
 
 func (e *Explorer) model(extra *smt.Term) (smt.Result, map[string]uint64) {
@@ -326,7 +416,7 @@ func (e *Explorer) Assert(c *smt.Term, id string) {
 	if e.feasible(c) == smt.Unsat {
 		panic(pathInfeasible{})
 	}
-	e.pc = append(e.pc, c)
+	e.addPC(c)
 }
 
 func (e *Explorer) record(f *Finding) {
